@@ -376,6 +376,7 @@ func (r *Run) condWait(st *State, fr *Frame, cond T, in ssa.Instruction, dst ssa
 
 func (r *Run) condBroadcast(st *State, fr *Frame, cond T, in ssa.Instruction) {
 	e := r.e
+	e.safety(st, fr, in, "nilcond", Not(Eq(cond, NilOf(SRef))), "Broadcast/Signal on a non-nil *sync.Cond at "+e.posOf(in))
 	lr, known := r.condLockRef(st, cond)
 	if known {
 		ord := e.callOrdinalKind(fr.Fn, in)
